@@ -2,7 +2,9 @@
 
 proof  : lean/Pyunicorn/Properties/C14.lean (kernel loops = chord / horizontal
          criterion, missing samples, affine invariance, time reversal,
-         retarded + advanced = degree, clustering counters)
+         retarded + advanced = degree, clustering counters; round 2: the matrix
+         as state, the float32 kernel under order faithfulness, closeness and
+         boundary-corrected measures under reversal, path lengths = least walks)
 tie    : exact correspondence of the Lean model (lean/Pyunicorn/Model/Visibility.lean)
          with the compiled kernels at the kernel boundary and with
          `VisibilityGraph` at the object level, on data whose float32 slope
@@ -60,6 +62,8 @@ def f64(xs):
 
 def canon_rat(v, maxden=5000):
     """canonical rational of a float64 quotient counter/norm (tolerance 1e-12)"""
+    if not np.isfinite(v):
+        return f"float:{float(v)!r}"
     fr = Fr(float(v)).limit_denominator(maxden)
     if abs(float(fr) - float(v)) > 1e-12 * max(1.0, abs(float(v))):
         return f"float:{float(v)!r}"
@@ -166,15 +170,60 @@ def call_kernel(K, kind, x, t, N, mv=None):
     return enc_mat(A)
 
 
-def make_vg(VG, x, t, missing, horizontal):
-    return VG(f64(x), timings=None if t is None else f64(t), missing_values=missing,
-              horizontal=horizontal, silence_level=3)
+FORMS = ("f64", "f32", "strided", "negstride", "int", "held")
 
 
-def class_answer(VG, x, t, missing, horizontal):
+def as_caller_array(v, form):
+    """the caller's array in one of the forms the constructor has to cope with:
+    float64 / float32, non-contiguous (stride 2, negative stride) views, an integer
+    array (NaN-free integer data only; else float64)"""
+    if form == "f32":
+        return f32(v)
+    a = f64(v)
+    if form == "strided":
+        b = np.full(2 * len(a) + 1, 7.5)
+        b[::2][:len(a)] = a
+        return b[::2][:len(a)]
+    if form == "negstride":
+        return np.ascontiguousarray(a[::-1])[::-1]
+    if form == "int" and all(w is not None and Fr(w).denominator == 1 for w in v):
+        return np.array([int(w) for w in v], dtype=np.int64)
+    return a
+
+
+def make_vg(VG, x, t, missing, horizontal, form="f64", silence_level=3):
+    if form == "held":
+        # arrays already held by the library: the FIELD arrays stored by another object
+        first = VG(f64(x), timings=None if t is None else f64(t), missing_values=missing,
+                   horizontal=not horizontal, silence_level=3)
+        return VG(first.time_series, timings=None if t is None else first.timings,
+                  missing_values=missing, horizontal=horizontal, silence_level=silence_level)
+    return VG(as_caller_array(x, form), timings=None if t is None else as_caller_array(t, form),
+              missing_values=missing, horizontal=horizontal, silence_level=silence_level)
+
+
+def canon_orat(v, maxden=10 ** 6):
+    return "nan" if np.isnan(v) else canon_rat(v, maxden)
+
+
+def path_observables(vg):
+    """closeness and boundary-corrected measures in the driver's format (NaN = mean over
+    an empty past / future)"""
+    import warnings
+    with warnings.catch_warnings(), np.errstate(all="ignore"):
+        warnings.simplefilter("ignore")
+        rcl = [canon_orat(v) for v in vg.retarded_closeness()]
+        acl = [canon_orat(v) for v in vg.advanced_closeness()]
+        bcd = [canon_rat(v, 10 ** 6) for v in vg.boundary_corrected_degree()]
+        bcc = [canon_orat(v) for v in vg.boundary_corrected_closeness()]
+    return rcl, acl, bcd, bcc
+
+
+def class_answer(VG, x, t, missing, horizontal, paths=False, form="f64", vg=None):
     """the object-level observables in the driver's format, plus the raw pieces"""
     try:
-        vg = make_vg(VG, x, t, missing, horizontal)
+        if vg is None:
+            vg = make_vg(VG, x, t, missing, horizontal, form)
     except (ZeroDivisionError, IndexError) as e:
         return exc_name(e), None
     A = np.array(vg.adjacency)
@@ -183,9 +232,14 @@ def class_answer(VG, x, t, missing, horizontal):
     deg = [int(v) for v in vg.degree()]
     rc = [canon_rat(v) for v in vg.retarded_local_clustering()]
     ac = [canon_rat(v) for v in vg.advanced_local_clustering()]
-    s = "|".join([enc_mat(A), ",".join(map(str, ret)), ",".join(map(str, adv)),
-                  ",".join(map(str, deg)), ",".join(rc), ",".join(ac)])
-    return s, {"A": A, "ret": ret, "adv": adv, "deg": deg, "rc": rc, "ac": ac}
+    parts = [enc_mat(A), ",".join(map(str, ret)), ",".join(map(str, adv)),
+             ",".join(map(str, deg)), ",".join(rc), ",".join(ac)]
+    obs = {"A": A, "ret": ret, "adv": adv, "deg": deg, "rc": rc, "ac": ac, "vg": vg}
+    if paths:
+        rcl, acl, bcd, bcc = path_observables(vg)
+        parts += [",".join(rcl), ",".join(acl), ",".join(bcd), ",".join(bcc)]
+        obs.update({"rcl": rcl, "acl": acl, "bcd": bcd, "bcc": bcc})
+    return "|".join(parts), obs
 
 
 # --------------------------------------------------------------------------
@@ -200,14 +254,37 @@ def sig(missing, horizontal, clause, has_nan=False, **kw):
     return d
 
 
-def oracle_case(VG, x, t, missing, horizontal, transforms=True, paths=True):
+def bfs_closeness(A, i, side):
+    """definition: inverse of the mean shortest-path length from i to the nodes in its
+    past / future (NaN if there are none, 0 if one of them is unreachable)"""
+    n = len(A)
+    dist = {i: 0}
+    front = [i]
+    while front:
+        nxt = []
+        for u in front:
+            for v in range(n):
+                if A[u][v] and v not in dist:
+                    dist[v] = dist[u] + 1
+                    nxt.append(v)
+        front = nxt
+    nodes = range(i) if side == "ret" else range(i + 1, n)
+    if len(nodes) == 0:
+        return "nan"
+    if any(v not in dist for v in nodes):
+        return "0"
+    return enc_fr(Fr(len(nodes), sum(dist[v] for v in nodes)))
+
+
+def oracle_case(VG, x, t, missing, horizontal, transforms=True, paths=True, form="f64"):
     """All violations of the property statement visible on this input.
     Returns a list of (signature, what, details)."""
     out = []
     n = len(x)
     tt = t if t is not None else [Fr(i) for i in range(n)]
     has_nan = any(v is None for v in x)
-    ans, obs = class_answer(VG, x, t, missing, horizontal)
+    close = 2 <= n <= 12
+    ans, obs = class_answer(VG, x, t, missing, horizontal, paths=close, form=form)
     if obs is None:
         out.append((sig(missing, horizontal, "raises", has_nan, error=ans),
                     f"constructor {ans} on increasing exact timings", {"observed": ans}))
@@ -254,6 +331,30 @@ def oracle_case(VG, x, t, missing, horizontal, transforms=True, paths=True):
                         f"linked pairs among past/future neighbours give {er}/{ea}",
                         {"node": i, "observed": [obs["rc"], obs["ac"]]}))
             break
+    # the public wrappers read the same matrix
+    vg = obs["vg"]
+    if n <= 8:
+        for a in range(n):
+            row = np.asarray(vg.visibility_single(a))
+            if not np.array_equal(row, A[a, :]) or \
+                    any(int(vg.visibility(a, b)) != int(A[a, b]) for b in range(n)):
+                out.append((sig(missing, horizontal, "wrappers", has_nan),
+                            f"visibility()/visibility_single() of node {a} differ from the adjacency",
+                            {"node": a, "observed": enc_mat(A)}))
+                break
+    # closeness: inverse mean shortest-path length to the past / future (definition, BFS);
+    # boundary-corrected degree from its definition
+    if close:
+        Al = A.tolist()
+        er = [bfs_closeness(Al, i, "ret") for i in range(n)]
+        ea = [bfs_closeness(Al, i, "adv") for i in range(n)]
+        eb = [enc_fr(Fr(int(A[i, :i].sum()) * i + int(A[i, i + 1:].sum()) * (n - 1 - i), n - 1))
+              for i in range(n)]
+        if obs["rcl"] != er or obs["acl"] != ea or obs["bcd"] != eb:
+            out.append((sig(missing, horizontal, "closeness", has_nan),
+                        f"retarded/advanced closeness {obs['rcl']}/{obs['acl']}, boundary-corrected "
+                        f"degree {obs['bcd']}; by definition {er}/{ea}, {eb}",
+                        {"observed": [obs["rcl"], obs["acl"], obs["bcd"]]}))
     if not transforms:
         return out
     # positive affine maps of values and times
@@ -275,7 +376,7 @@ def oracle_case(VG, x, t, missing, horizontal, transforms=True, paths=True):
             ok = False
         if not ok:
             continue
-        _, o2 = class_answer(VG, x2, t2, missing, horizontal)
+        _, o2 = class_answer(VG, x2, t2, missing, horizontal, form=form if form != "int" else "f64")
         if o2 is None or not np.array_equal(o2["A"], A):
             out.append((sig(missing, horizontal, "affine", has_nan),
                         f"graph changes under x -> {a}x+{b}, t -> {c}t+{d}",
@@ -286,7 +387,7 @@ def oracle_case(VG, x, t, missing, horizontal, transforms=True, paths=True):
     xr = list(reversed(x))
     tr = [T - v for v in reversed(tt)]
     if f32_exact(xr, tr):
-        _, orv = class_answer(VG, xr, tr, missing, horizontal)
+        _, orv = class_answer(VG, xr, tr, missing, horizontal, paths=close, form=form)
         if orv is None or not np.array_equal(orv["A"], A[::-1, ::-1]):
             out.append((sig(missing, horizontal, "reversal", has_nan),
                         "graph of the time-reversed series is not the mirrored graph",
@@ -298,6 +399,14 @@ def oracle_case(VG, x, t, missing, horizontal, transforms=True, paths=True):
                         "time reversal does not exchange retarded and advanced measures",
                         {"forward": [obs["ret"], obs["adv"], obs["rc"], obs["ac"]],
                          "reversed": [orv["ret"], orv["adv"], orv["rc"], orv["ac"]]}))
+        elif close and (orv["rcl"] != obs["acl"][::-1] or orv["acl"] != obs["rcl"][::-1] or
+                        orv["bcd"] != obs["bcd"][::-1] or orv["bcc"] != obs["bcc"][::-1]):
+            out.append((sig(missing, horizontal, "reversal-path-measures", has_nan,
+                            measure="closeness/boundary-corrected"),
+                        "time reversal does not exchange retarded and advanced closeness / mirror "
+                        "the boundary-corrected measures",
+                        {"forward": [obs["rcl"], obs["acl"], obs["bcd"], obs["bcc"]],
+                         "reversed": [orv["rcl"], orv["acl"], orv["bcd"], orv["bcc"]]}))
         elif paths and 3 <= n <= 7:
             # path-based time-directed measures (implementation only, tolerance 1e-9;
             # NaN = mean over an empty past/future, on both sides)
@@ -334,7 +443,7 @@ def path_measures_exchanged(VG, x, t, xr, tr, missing, horizontal):
     return None
 
 
-def report(ctx, VG, x, t, missing, horizontal, viol):
+def report(ctx, VG, x, t, missing, horizontal, viol, form="f64"):
     """shrink (drop samples while the same signature still fails) and report"""
     for s, what, det in viol:
         idx = list(range(len(x)))
@@ -345,7 +454,8 @@ def report(ctx, VG, x, t, missing, horizontal, viol):
             xs = [x[i] for i in ix]
             ts = None if t is None else [t[i] for i in ix]
             try:
-                return any(s2 == s for s2, _, _ in oracle_case(VG, xs, ts, missing, horizontal))
+                return any(s2 == s for s2, _, _ in
+                           oracle_case(VG, xs, ts, missing, horizontal, form=form))
             except Exception:  # noqa
                 return False
         is_known = any(all(s.get(k) == v for k, v in f["signature"].items())
@@ -355,12 +465,14 @@ def report(ctx, VG, x, t, missing, horizontal, viol):
         xs = [x[i] for i in idx]
         ts = None if t is None else [t[i] for i in idx]
         if len(idx) < len(x):
-            again = [v for v in oracle_case(VG, xs, ts, missing, horizontal) if v[0] == s]
+            again = [v for v in oracle_case(VG, xs, ts, missing, horizontal, form=form)
+                     if v[0] == s]
             if again:
                 what, det = again[0][1], again[0][2]
         ctx.fail(s, what, {"time_series": [enc_fr(v) for v in xs],
                            "timings": None if ts is None else [enc_fr(v) for v in ts],
-                           "missing_values": missing, "horizontal": horizontal, **det})
+                           "missing_values": missing, "horizontal": horizontal,
+                           "caller_array": form, **det})
 
 
 # --------------------------------------------------------------------------
@@ -432,8 +544,9 @@ def with_nans(rng, x, p):
     return [None if rng.random() < p else v for v in x]
 
 
-def usable(x, t):
-    """values/timings are float32 numbers, small, and the float32 slope order is exact"""
+def usable(x, t, big=False):
+    """values/timings are float32 numbers, small (unless `big`: extreme power-of-two
+    rescalings), and the float32 slope order is exact"""
     n = len(x)
     tt = t if t is not None else [Fr(i) for i in range(n)]
     try:
@@ -441,7 +554,7 @@ def usable(x, t):
         f32(tt)
     except ValueError:
         return False
-    if any(v is not None and abs(v) > 4096 for v in x):
+    if not big and any(v is not None and abs(v) > 4096 for v in x):
         return False
     return f32_exact(x, tt)
 
@@ -453,16 +566,32 @@ def run(ctx):
     from pyunicorn.timeseries import VisibilityGraph as VG
     rng = ctx.rng
     quick = ctx.tier == "quick"
+    import time
+    t_phase = [time.time()]
+
+    def phase(name):
+        now = time.time()
+        ctx.extra.setdefault("phase_seconds", {})[name] = round(now - t_phase[0], 1)
+        t_phase[0] = now
     ctx.rule = ("kernel level: the three visibility kernels on all series over {0..3}^n "
                 f"(n <= {5 if quick else 7}, sampled beyond) with all / random masks, random structured "
                 "exact series (plateaus, monotone runs, collinear segments, parabolas, spikes, "
                 "dyadic values; uniform and non-uniform dyadic timings), masks independent of NaN, "
                 "N smaller / larger than the arrays, tied and decreasing timings (error branch); "
-                "object level: VisibilityGraph adjacency, retarded/advanced degree and clustering; "
+                "extreme power-of-two rescalings, degenerate (constant / alternating / spike / all-missing) "
+                "series; the float32 model on these and on generic float32 data (near ties, 2^±60 "
+                "dynamic range, NaN); object level: VisibilityGraph adjacency, retarded/advanced degree, "
+                "clustering, closeness, boundary-corrected degree/closeness for caller arrays in float64 / "
+                "float32 / int64 / strided / negative-stride form and arrays held by another object, "
+                "multi-step histories on one object, wrappers, silence_level=0; "
                 "distinct = distinct (request); non-trivial = at least 3 samples, not all equal")
     ctx.trusted = common.DEFAULT_TRUSTED + [
-        "float32 rounding of the slope quotients is not modelled: the harness checks for every "
-        "compared case that the float32 quotients are ordered exactly like the rational ones"]
+        "float32: kernelNR rndF32 (differences and quotient rounded to binary32, RNE, no overflow) is "
+        "compared exactly with the compiled natural kernels on generic float32 data; theorem "
+        "nvg_float32_eq_exact reduces it to the exact model under `Faithful`, which the Lean driver "
+        "decides for the series of the exact correspondence (f32_exact selects them independently)",
+        "Network.path_lengths (igraph) is modelled by its specification pathLen (least number of links, "
+        "theorem path_lengths_are_least_walk_lengths); nsi_betweenness-based measures are not modelled"]
     ctx.proofs()
 
     # ---------------- the series pool ---------------------------------------
@@ -498,7 +627,24 @@ def run(ctx):
             continue
         pool.append((x, t, f"random:{vk}/{tk}"))
         made += 1
+        # extreme-but-exact rescalings x -> 2^a x, t -> 2^c t + d (the exact model is invariant;
+        # an absolute tolerance or a wrong rounding anywhere in the float slopes is not)
+        if rng.random() < 0.12:
+            a = Fr(2) ** rng.choice([-40, -22, -9, 9, 22, 40])
+            c = Fr(2) ** rng.choice([-30, -12, 12, 30])
+            tt0 = t if t is not None else [Fr(i) for i in range(n)]
+            x2, t2 = [a * v for v in x], [c * v for v in tt0]
+            if usable(x2, t2, big=True):
+                pool.append((x2, t2, "rescaled:power-of-two"))
+            else:
+                ctx.count("generator:rejected-not-float32-exact")
+    # degenerate series: constant, two levels, one spike
+    for n in (2, 3, 5, 9, 16):
+        pool.append(([Fr(1)] * n, None, "degenerate:constant"))
+        pool.append(([Fr(i % 2) for i in range(n)], None, "degenerate:alternating"))
+        pool.append(([Fr(5) if i == n // 2 else Fr(0) for i in range(n)], None, "degenerate:spike"))
 
+    phase("proofs+pool")
     # ---------------- kernel-level correspondence ----------------------------
     reqs, impl = [], []
 
@@ -530,10 +676,17 @@ def run(ctx):
             return list(itertools.product([False, True], repeat=n))
         return [tuple(rng.random() < p for _ in range(n)) for p in (0.15, 0.4)]
 
+    freqs = []      # Faithful rndF32 x t n, decided by the Lean driver
+    rreqs, rimpl = [], []   # the float32 model kernelNR rndF32 against the compiled kernels
     for x, t, tag in pool:
         n = len(x)
         ctx.count("series:" + tag.split("/")[0])
         ctx.count(f"n={n}" if n <= 7 else ("n=8..16" if n <= 16 else "n>16"))
+        if 3 <= n <= 16 and (n <= 5 or not tag.startswith("exhaustive") or rng.random() < 0.2):
+            tt = t if t is not None else [Fr(i) for i in range(n)]
+            freqs.append(f"faithful {n} {enc_vals(x)} {enc_vals(tt)}")
+            rreqs.append(f"nvgR {n} {enc_vals(x)} {enc_vals(tt)}")
+            rimpl.append(call_kernel(K, "nvg", x, tt, n))
         add_kernel("nvg", x, t, n)
         add_kernel("hvg", x, t, n)
         for m in (masks_for(n) if (n <= 3 or rng.random() < 0.35) else masks_for(n)[:1]):
@@ -591,7 +744,13 @@ def run(ctx):
               "see evidence coverage.out_of_domain")
     ctx.correspond("Lean Visibility model == compiled visibility kernels", reqs, impl)
     ctx.extra["kernel_calls_compared"] = len(reqs)
+    # hypothesis of theorem nvg_float32_eq_exact, decided inside Lean for the series above
+    # (independently of f32_exact, which selected them)
+    ctx.correspond("Faithful rndF32 x t N (hypothesis of nvg_float32_eq_exact) decided by the Lean "
+                   "driver on the series of the exact correspondence", freqs, ["1"] * len(freqs))
+    ctx.extra["faithful_checked_in_lean"] = len(freqs)
 
+    phase("kernel-level")
     # ---------------- clustering kernels ---------------------------------------
     # in domain: symmetric loop-free matrices with the class's norm d(d-1)/2;
     # arbitrary (asymmetric) matrices and norms are compared for information only
@@ -634,19 +793,27 @@ def run(ctx):
         print(f"  note: clustering model and kernels differ on {len(cxbad)}/{len(cxreqs)} "
               "asymmetric matrices / foreign norms (outside the property's domain)")
 
+    phase("clustering-kernels")
     # ---------------- object level: correspondence + oracle -------------------
     oreqs, oimpl, ocases = [], [], []
+    hreqs, himpl = [], []          # visibility_relations*() called again on a live object
     objs = [p for p in pool if len(p[0]) >= 2]
-    if quick:
-        small = [p for p in objs if p[2].startswith("exhaustive")]
-        rnd = [p for p in objs if not p[2].startswith("exhaustive")]
-        objs = rng.sample(small, min(len(small), 500)) + rnd
+    small = [p for p in objs if p[2].startswith("exhaustive")]
+    rnd = [p for p in objs if not p[2].startswith("exhaustive")]
+    objs = rng.sample(small, min(len(small), 400 if quick else 5000)) + rnd
+    # all-missing and almost-all-missing series (every sample isolated / one sample left)
+    for n in (2, 3, 6):
+        objs.append(([None] * n, None, "degenerate:all-missing"))
+        objs.append(([None] * (n - 1) + [Fr(1)], None, "degenerate:one-present"))
     for x, t, tag in objs:
         n = len(x)
-        variants = [(x, False, False), (x, False, True), (x, True, False), (x, True, True)]
+        if all(v is None for v in x):
+            variants = [(x, True, False), (x, True, True)]
+        else:
+            variants = [(x, False, False), (x, False, True), (x, True, False), (x, True, True)]
         for p in ((0.15, 0.4) if n > 2 else (0.5,)):
             xn = with_nans(rng, x, p)
-            if any(v is None for v in xn):
+            if any(v is None for v in xn) and not all(v is None for v in x):
                 variants += [(xn, True, False), (xn, True, True)]
                 if rng.random() < 0.2:
                     variants += [(xn, False, False), (xn, False, True)]
@@ -654,60 +821,134 @@ def run(ctx):
             if rng.random() < (0.5 if len(variants) > 4 else 0.0) and not any(v is None for v in xx) \
                     and missing:
                 continue
-            ans, _ = class_answer(VG, xx, t, missing, hor)
-            oreqs.append(f"class {enc_vals(xx)} {'-' if t is None else enc_vals(t)} "
-                         f"{int(missing)} {int(hor)}")
+            form = rng.choice(FORMS) if rng.random() < 0.5 else "f64"
+            paths = n <= 10
+            ans, obs = class_answer(VG, xx, t, missing, hor, paths=paths, form=form)
+            oreqs.append(f"{'classp' if paths else 'class'} {enc_vals(xx)} "
+                         f"{'-' if t is None else enc_vals(t)} {int(missing)} {int(hor)}")
             oimpl.append(ans)
-            ocases.append((xx, t, missing, hor))
+            ocases.append((xx, t, missing, hor, form))
             ctx.case(oreqs[-1], n >= 3 and len(set(xx)) > 1,
                      {"request": oreqs[-1]} if n <= 5 else None)
             ctx.count(f"object:missing_values={missing},horizontal={hor},"
                       f"nan={'yes' if any(v is None for v in xx) else 'no'}")
-    ctx.correspond("Lean classLog/degree/clustering model == VisibilityGraph", oreqs, oimpl)
+            ctx.count(f"caller-array:{form}")
+            if paths:
+                ctx.count("object:with-closeness-and-boundary-corrected")
+            # multi-step history on the live object: every measure again in another order,
+            # both visibility_relations*() methods called again (the one the constructor did
+            # not use is a non-default path), the wrappers; nothing may change
+            if obs is not None and rng.random() < 0.25:
+                vg = obs["vg"]
+                tq = "-" if t is None else enc_vals(t)
+                try:
+                    with np.errstate(all="ignore"):
+                        vg.advanced_local_clustering(), vg.retarded_degree(), vg.degree()
+                        A_n = np.array(vg.visibility_relations())
+                        A_h = np.array(vg.visibility_relations_horizontal())
+                        if paths:
+                            path_observables(vg)
+                    hreqs += [f"mat {enc_vals(xx)} {tq} {int(missing)} 0",
+                              f"mat {enc_vals(xx)} {tq} {int(missing)} 1"]
+                    himpl += [enc_mat(A_n), enc_mat(A_h)]
+                    ans2, _ = class_answer(VG, xx, t, missing, hor, paths=paths, vg=vg)
+                except (ZeroDivisionError, IndexError) as e:
+                    ans2 = exc_name(e)
+                ctx.count("object:history-replayed")
+                if ans2 != ans:
+                    ctx.fail(sig(missing, hor, "history", any(v is None for v in xx)),
+                             "observables of one VisibilityGraph object change after calling its "
+                             "measures / visibility_relations*() again",
+                             {"time_series": [enc_fr(v) for v in xx],
+                              "timings": None if t is None else [enc_fr(v) for v in t],
+                              "missing_values": missing, "horizontal": hor, "caller_array": form,
+                              "first": ans, "second": ans2})
+    ctx.correspond("Lean classMat/degree/clustering/closeness model == VisibilityGraph", oreqs, oimpl)
+    ctx.correspond("Lean classMat == visibility_relations() / visibility_relations_horizontal() "
+                   "called again on live objects", hreqs, himpl)
+    # non-default verbosity: the constructor prints, the graph is the same
+    import contextlib
+    import io
+    for xx, t, missing, hor, form in rng.sample(ocases, min(len(ocases), 40)):
+        buf = io.StringIO()
+        try:
+            with contextlib.redirect_stdout(buf):
+                vg0 = make_vg(VG, xx, t, missing, hor, form, silence_level=0)
+            vg3 = make_vg(VG, xx, t, missing, hor, form)
+        except (ZeroDivisionError, IndexError):
+            continue
+        ctx.count("object:silence_level=0")
+        if not np.array_equal(vg0.adjacency, vg3.adjacency):
+            ctx.fail(sig(missing, hor, "silence_level", any(v is None for v in xx)),
+                     "adjacency depends on silence_level",
+                     {"time_series": [enc_fr(v) for v in xx],
+                      "timings": None if t is None else [enc_fr(v) for v in t],
+                      "missing_values": missing, "horizontal": hor, "caller_array": form})
     # informative samples for the evidence: object-level cases with their answers
     good = [i for i, c in enumerate(ocases) if 5 <= len(c[0]) <= 8 and len(set(c[0])) > 2]
     for i in rng.sample(good, min(3, len(good))):
         ctx.samples.insert(0, {"request": oreqs[i],
-                               "answer(A|ret|adv|deg|retclust|advclust)": oimpl[i]})
+                               "answer(A|ret|adv|deg|retclust|advclust|retclose|advclose|bcdeg|bcclose)":
+                                   oimpl[i]})
 
+    phase("object-level-correspondence")
     # the oracle (independent of the model) on every object-level case
     nfail = 0
-    for k, (xx, t, missing, hor) in enumerate(ocases):
+    for k, (xx, t, missing, hor, form) in enumerate(ocases):
         do_tr = len(xx) <= 8 or rng.random() < 0.3
         do_paths = do_tr and 3 <= len(xx) <= 7 and rng.random() < (0.15 if quick else 0.03)
-        viol = oracle_case(VG, xx, t, missing, hor, transforms=do_tr, paths=do_paths)
+        viol = oracle_case(VG, xx, t, missing, hor, transforms=do_tr, paths=do_paths, form=form)
         ctx.count("oracle:cases")
         if do_tr:
             ctx.count("oracle:with-affine-and-reversal")
         if do_paths:
-            ctx.count("oracle:with-path-measures-under-reversal")
+            ctx.count("oracle:with-betweenness-under-reversal")
         if viol:
             nfail += 1
             if nfail <= 40:
-                report(ctx, VG, xx, t, missing, hor, viol)
+                report(ctx, VG, xx, t, missing, hor, viol, form)
             else:
                 for s, what, det in viol:
                     ctx.fail(s, what, {"time_series": [enc_fr(v) for v in xx],
                                        "timings": None if t is None else [enc_fr(v) for v in t],
-                                       "missing_values": missing, "horizontal": hor, **det})
+                                       "missing_values": missing, "horizontal": hor,
+                                       "caller_array": form, **det})
 
-    # ---------------- near-tie stream (implementation only) -------------------
-    # generic float32 data: the kernel against a float32 twin of its own slope
-    # comparison written with numpy (no claim about the rational criterion here)
-    for c in range(100 if quick else 1500):
-        n = rng.randrange(3, 30)
+    phase("oracle")
+    # ---------------- generic float32 data: the float32 model ------------------
+    # Arbitrary float32 series (near ties, wide dynamic range, NaN): the compiled natural
+    # kernels against (a) the Lean model `kernelNR rndF32` (both differences and the quotient
+    # rounded to binary32), exactly; (b) a numpy float32 twin of the slope comparison
+    # (independent of the model).  No claim about the rational criterion here — that is
+    # theorem nvg_float32_eq_exact under `Faithful`.
+    def fr32(a):
+        return [None if np.isnan(v) else Fr(float(v)) for v in a]
+
+    greqs, gimpl, gfaith = [], [], []
+
+    for c in range(400 if quick else 4000):
+        n = rng.randrange(3, 12 if rng.random() < 0.8 else 20)
         xs = nprng.rand(n).astype(np.float32)
-        if rng.random() < 0.5:
+        kind = rng.choice(["uniform", "eighths", "scaled", "ramp"])
+        if kind == "eighths":
             xs = np.round(xs * 8).astype(np.float32) / 8
         ts = np.cumsum(nprng.rand(n).astype(np.float32) + np.float32(0.25)).astype(np.float32)
+        if kind == "scaled":
+            xs = (xs * np.float32(2.0) ** rng.randint(-60, 60)).astype(np.float32)
+            ts = (ts * np.float32(2.0) ** rng.randint(-40, 40)).astype(np.float32)
+        if kind == "ramp":     # nearly collinear: slopes differ in the last bits
+            xs = (np.float32(0.3) * ts + xs * np.float32(2.0) ** -20).astype(np.float32)
         A = np.zeros((n, n), dtype=np.int8)
         K._visibility_relations_no_missingvalues(xs, ts, n, A)
+        greqs.append(f"nvgR {n} {enc_vals(fr32(xs))} {enc_vals(fr32(ts))}")
+        gimpl.append(enc_mat(A))
+        gfaith.append(f"faithful {n} {enc_vals(fr32(xs))} {enc_vals(fr32(ts))}")
         E = np.zeros((n, n), dtype=np.int8)
         for i in range(n):
             for j in range(i + 1, n):
                 sl = ((xs[i + 1:j + 1] - xs[i]) / (ts[i + 1:j + 1] - ts[i])).astype(np.float32)
                 E[i, j] = E[j, i] = int(np.all(sl[:-1] < sl[-1]))
-        ctx.count("near-tie:float32-twin")
+        ctx.count("float32:generic-" + kind)
         ctx.case(("twin", xs.tobytes().hex(), ts.tobytes().hex()), True)
         if not np.array_equal(A, E):
             ctx.fail({"kind": "kernel", "kernel": "_visibility_relations_no_missingvalues",
@@ -715,6 +956,39 @@ def run(ctx):
                      "natural kernel differs from the float32 slope criterion on generic data",
                      {"x": [float(v) for v in xs], "t": [float(v) for v in ts],
                       "expected": enc_mat(E), "observed": enc_mat(A)})
+        # the missing-value kernel on the same data with NaN at the masked samples
+        m = [rng.random() < 0.2 for _ in range(n)]
+        xn = xs.copy()
+        xn[np.array(m)] = np.nan
+        A2 = np.zeros((n, n), dtype=np.int8)
+        K._visibility_relations_missingvalues(xn, ts, n, A2, np.array(m, dtype=bool))
+        greqs.append(f"nvgR_mv {n} {enc_vals(fr32(xn))} {enc_vals(fr32(ts))} {enc_bools(m)}")
+        gimpl.append(enc_mat(A2))
+        gfaith.append(f"faithful {n} {enc_vals(fr32(xn))} {enc_vals(fr32(ts))}")
+    # Obligation where the theorems speak: on series that are Faithful (decided in Lean) the
+    # float model is the exact model is the geometric criterion, so *any* correct kernel must
+    # agree.  On the other generic series (float32 ties between distinct slopes) agreement
+    # of the compiled code with the binary32 model is recorded in the evidence only: an
+    # implementation computing more accurately would differ there without violating C14.
+    gf = common.driver(ctx.pid, gfaith)
+    for r, a, f in zip(greqs, gimpl, gf):
+        if f == "1":
+            rreqs.append(r)
+            rimpl.append(a)
+            ctx.count("float32:generic-faithful")
+    nf = [i for i, f in enumerate(gf) if f != "1"]
+    nmodel = common.driver(ctx.pid, [greqs[i] for i in nf])
+    nbad = [i for i, mdl in zip(nf, nmodel) if mdl != gimpl[i]]
+    ctx.extra["float32_model_on_non_faithful_data"] = {
+        "requests": len(nf), "agree": len(nf) - len(nbad),
+        "first_disagreements": [greqs[i][:300] for i in nbad[:3]]}
+    if nbad:
+        print(f"  note: compiled natural kernels and the binary32 model differ on {len(nbad)}/{len(nf)} "
+              "generic float32 series that are not order-faithful (outside the exact quantifier)")
+    ctx.correspond("Lean float32 model kernelNR rndF32 == compiled natural kernels "
+                   "(exact series and order-faithful generic float32 data)", rreqs, rimpl)
+    ctx.extra["float32_model_calls_compared"] = len(rreqs)
+    phase("float32-model")
 
 
 def replay(ctx, rp):
@@ -726,11 +1000,12 @@ def replay(ctx, rp):
         return
     x = [None if v == "nan" else Fr(v) for v in r["time_series"]]
     t = None if r.get("timings") is None else [Fr(v) for v in r["timings"]]
-    viol = oracle_case(VG, x, t, r["missing_values"], r["horizontal"])
+    form = r.get("caller_array", "f64")
+    viol = oracle_case(VG, x, t, r["missing_values"], r["horizontal"], form=form)
     for s, what, det in viol:
         print("  replay:", what)
         ctx.fail(s, what, {"time_series": r["time_series"], "timings": r.get("timings"),
                            "missing_values": r["missing_values"],
-                           "horizontal": r["horizontal"], **det})
+                           "horizontal": r["horizontal"], "caller_array": form, **det})
     if not viol:
         print("  replay: the property holds on the recorded input")
